@@ -324,6 +324,19 @@ int apply_low (const char *fun, object_t * ob, int num_arg) {
           runtime_defined_t *fundefp = &(FIND_FUNC_ENTRY (prog, funp->runtime_index)->def);
           int funflags = ob->prog->function_flags[funp->runtime_index + fio];
 
+          /* The searched function is found, add to APPLY_CACHE whether or not
+           * this caller may call it: visibility depends on the caller and is
+           * checked on every call, so a refused call must not be cached as
+           * "function not defined". */
+          entry->oprogp = ob->prog;
+          entry->id = progp->id_number;
+          entry->name = ref_string (sfun);
+          entry->index = index;
+          entry->variable_index_offset = vio;
+          entry->function_index_offset = fio;
+          entry->num_arg = fundefp->num_arg;
+          entry->num_local = fundefp->num_local;
+          entry->progp = prog;
           //if (!(funflags & (NAME_STATIC | NAME_PRIVATE))
           //    || (local_call_origin & (ORIGIN_DRIVER | ORIGIN_CALL_OUT)))
           if (function_visible(local_call_origin, funflags))
@@ -332,23 +345,14 @@ int apply_low (const char *fun, object_t * ob, int num_arg) {
               current_prog = prog;
               caller_type = local_call_origin;
 
-              /* The searched function is found, add to APPLY_CACHE */
-              entry->oprogp = ob->prog;
-              entry->id = progp->id_number;
-              entry->name = ref_string (sfun);
-              entry->index = index;
-
               csp->fr.table_index = index;
               csp->num_local_variables = num_arg;
-              entry->variable_index_offset = variable_index_offset = vio;
-              entry->function_index_offset = function_index_offset = fio;
+              variable_index_offset = vio;
+              function_index_offset = fio;
               if (funflags & NAME_TRUE_VARARGS)
                 setup_varargs_variables (csp->num_local_variables, fundefp->num_local, fundefp->num_arg);
               else
                 setup_variables (csp->num_local_variables, fundefp->num_local, fundefp->num_arg);
-              entry->num_arg = fundefp->num_arg;
-              entry->num_local = fundefp->num_local;
-              entry->progp = current_prog;
               previous_ob = current_object;
               current_object = ob;
               opt_trace (TT_EVAL, "calling \"%s\": offset %+d", fun, funp->address);
@@ -360,6 +364,10 @@ int apply_low (const char *fun, object_t * ob, int num_arg) {
                */
               return 1;
             }
+          /* defined, but not visible to this caller */
+          pop_n_elems (num_arg);
+          opt_trace (TT_EVAL, "not visible to caller: \"%s\"", fun);
+          return 0;
         }
       /* We have to mark a function not to be in the object */
       entry->id = progp->id_number;
